@@ -219,6 +219,9 @@ func runC17(c *fw.Case) (o fw.Outcome) {
 	case 4:
 		o.Tag("pco")
 		for i := 0; i < 40; i++ {
+			if !c17PcoHelpers(&o, r) {
+				return
+			}
 			p := nasConvert.NewProtocolConfigurationOptions()
 			n := r.Intn(41)
 			if i == 0 {
@@ -351,6 +354,74 @@ func runC17(c *fw.Case) (o fw.Outcome) {
 }
 
 // c17Pair checks one (IPv4, IPv6) text pair through IPAddressToNgap and back.
+// c17PcoHelpers: a list put together with the Add... helpers (the way the emulator's session request and an SMF's answer
+// are built) carries the container identifiers TS 24.008 10.5.6.3 assigns, with empty contents for the requests and the
+// address / MTU octets for the answers. Afterwards the owner of the list edits its units in place (an SMF answering a
+// request does exactly that): the NEXT list built with the helpers must not know.
+func c17PcoHelpers(o *fw.Outcome, r *rand.Rand) bool {
+	p := nasConvert.NewProtocolConfigurationOptions()
+	want := []byte{0x80}
+	var desc []string
+	for k, n := 0, 1+r.Intn(6); k < n; k++ {
+		switch r.Intn(6) {
+		case 0:
+			p.AddDNSServerIPv4AddressRequest()
+			want = append(want, 0x00, 0x0d, 0x00)
+			desc = append(desc, "dns4?")
+		case 1:
+			p.AddDNSServerIPv6AddressRequest()
+			want = append(want, 0x00, 0x03, 0x00)
+			desc = append(desc, "dns6?")
+		case 2:
+			p.AddIPAddressAllocationViaNASSignallingUL()
+			want = append(want, 0x00, 0x0a, 0x00)
+			desc = append(desc, "alloc-via-nas")
+		case 3:
+			ip := net.IP(rbytes(r, 4))
+			if err := p.AddDNSServerIPv4Address(ip); err != nil {
+				o.Fail("pco-helper", "AddDNSServerIPv4Address(%s): %v", ip, err)
+				return false
+			}
+			want = append(append(want, 0x00, 0x0d, 0x04), ip...)
+			desc = append(desc, "dns4="+ip.String())
+		case 4:
+			ip := net.IP(rbytes(r, 16))
+			if err := p.AddDNSServerIPv6Address(ip); err != nil {
+				o.Fail("pco-helper", "AddDNSServerIPv6Address(%s): %v", ip, err)
+				return false
+			}
+			want = append(append(want, 0x00, 0x03, 0x10), ip...)
+			desc = append(desc, "dns6="+ip.String())
+		case 5:
+			mtu := pick(r, uint16(0), 1, 1280, 1500, 9000, 0xffff, uint16(r.Intn(1<<16)))
+			if err := p.AddIPv4LinkMTU(mtu); err != nil {
+				o.Fail("pco-helper", "AddIPv4LinkMTU(%d): %v", mtu, err)
+				return false
+			}
+			want = append(want, 0x00, 0x10, 0x02, byte(mtu>>8), byte(mtu))
+			desc = append(desc, fmt.Sprintf("mtu=%d", mtu))
+		}
+	}
+	o.Input = "PCO built with helpers: " + strings.Join(desc, " ")
+	got := p.Marshal()
+	if !bytes.Equal(got, want) {
+		o.Fail("pco-helper", "%s encodes as %x, TS 24.008 10.5.6.3 gives %x", o.Input, got, want)
+		return false
+	}
+	for _, u := range p.ProtocolOrContainerList { // the owner answers / rewrites its units in place
+		if u == nil {
+			continue
+		}
+		u.Contents = rbytes(r, pick(r, 4, 16, 2, 1+r.Intn(20)))
+		u.LengthOfContents = uint8(len(u.Contents))
+		if r.Intn(3) == 0 {
+			u.ProtocolOrContainerID = uint16(r.Intn(1 << 16))
+		}
+	}
+	o.Count("pco_lists_built_with_helpers", 1)
+	return true
+}
+
 // spell6: the textual forms RFC 4291 2.2 gives an IPv6 address - what net.IP prints, all eight groups written out (lower
 // or upper case, with or without leading zeros) and form 3, whose last 32 bits are dotted decimal (up to 45 characters).
 func spell6(r *rand.Rand, ip net.IP) string {
